@@ -13,7 +13,7 @@ import numpy as np
 
 from common import (real_solve, real_solve_canon, solve_op, run_driver, parse_solve_answer, compare_solve,
                     random_case, case_to_json, case_from_json, power_profiles, uniform_profiles, zgrid,
-                    random_source, limit_growth, field_floor)
+                    random_source, limit_growth, field_floor, big_cases)
 
 TOL = {"double": 1e-9, "single": 2e-5}
 
@@ -313,7 +313,7 @@ def run_C04(rng, tier, deep):
     st = new_stats()
     n = budget(tier, deep, 24, 240)
     cases = [random_case(rng) for _ in range(n)]
-    correspond(cases, st)
+    correspond(cases + big_cases(rng, tier, deep), st)
     for _ in range(budget(tier, deep, 30, 300)):
         c = random_case(rng, precision=str(rng.choice(["double", "double", "double", "single"])))
         ny, nx = c["q"].shape
@@ -435,7 +435,7 @@ def o_reciprocity(case):
 
 def run_C02(rng, tier, deep):
     st = new_stats()
-    correspond([random_case(rng, footprint=bool(i % 2)) for i in range(budget(tier, deep, 24, 200))], st)
+    correspond([random_case(rng, footprint=bool(i % 2)) for i in range(budget(tier, deep, 24, 200))] + big_cases(rng, tier, deep), st)
     for _ in range(budget(tier, deep, 40, 500)):
         c = random_case(rng)
         im, jm, pt = ongrid_point(rng, c)
@@ -546,9 +546,29 @@ def tall_column_case(rng):
     return c
 
 
+def smooth_surface_case(rng):
+    """a very smooth surface (water, ice, snow: roughness length 1e-5 .. 1e-4 m): K = kappa u* z is of the order of 1e-6 m2/s at the lowest
+    nodes - far below anything a land surface gives - and those layers carry most of the vertical resistance.  The law of the mean
+    concentration is stated for the caller's Kz, whatever its magnitude."""
+    nz = int(rng.integers(12, 40))
+    z0 = float(10.0 ** rng.uniform(-5.3, -4.0))
+    z = np.geomspace(z0, float(rng.uniform(4, 20)), nz)
+    ust = float(rng.uniform(0.05, 0.4))
+    Kz = 0.4 * ust * z
+    sp = (ust / 0.4) * np.log(z / (0.5 * z0))
+    wd = float(rng.uniform(0, 2 * np.pi))
+    ny, nx = int(rng.choice([4, 6, 5])), int(rng.choice([4, 6, 7]))
+    c = dict(q=rng.uniform(0.5, 1.5, (ny, nx)), z=z, profiles=(np.cos(wd) * sp, np.sin(wd) * sp, 1.2 * Kz, 0.8 * Kz, Kz), domain=(400.0, 300.0),
+             levels=[1, int(nz // 2), int(nz - 1), 0], modes=(4, 4), meas_pt=(0.0, 0.0), bg=float(rng.choice([0.0, 420.0])),
+             footprint=bool(rng.random() < 0.5), analytic=False, halo=0.0, precision="double")
+    limit_growth(c)
+    c["_kinds"] = dict(halo="zero", levels="smooth surface (Kz ~ 1e-6 at the lowest nodes)", meas="origin", prof="varying")
+    return c
+
+
 def run_C03(rng, tier, deep):
     st = new_stats()
-    correspond([random_case(rng, halo=0.0 if i % 3 == 0 else random_case(rng)["halo"]) for i in range(budget(tier, deep, 24, 200))], st)
+    correspond([random_case(rng, halo=0.0 if i % 3 == 0 else random_case(rng)["halo"]) for i in range(budget(tier, deep, 24, 200))] + big_cases(rng, tier, deep), st)
     for _ in range(budget(tier, deep, 30, 400)):
         c = random_case(rng)
         if rng.random() < 0.3:
@@ -564,7 +584,9 @@ def run_C03(rng, tier, deep):
         run_oracle(st, o_halo_padding, c2)
     for _ in range(budget(tier, deep, 2, 6)):
         run_oracle(st, o_conservation, tall_column_case(rng))
-    return finish(st, "random requests and tall columns (1500-4000 geometric layers, background 420 / 1900, single and double); conservation oracle with halo=0 (periodic domain observed through the API), "
+    for _ in range(budget(tier, deep, 3, 12)):
+        run_oracle(st, o_conservation, smooth_surface_case(rng))
+    return finish(st, "smooth surfaces (z0 1e-5..1e-4 m, Kz ~ 1e-6 m2/s at the lowest nodes); random requests and tall columns (1500-4000 geometric layers, background 420 / 1900, single and double); conservation oracle with halo=0 (periodic domain observed through the API), "
                   "halo-equivalence oracle with explicit np.pad, enlarged domain, halo=0 and crop", deep, TOL)
 
 
@@ -778,7 +800,7 @@ def run_C05(rng, tier, deep):
         c["_kinds"]["prof"] = "uniform"
         limit_growth(c)
         cases.append(c)
-    correspond(cases, st)
+    correspond(cases + big_cases(rng, tier, deep), st)
     for _ in range(budget(tier, deep, 30, 300)):
         c = random_case(rng, analytic=True)
         c["profiles"] = uniform_profiles(rng, len(c["z"]))
@@ -916,7 +938,9 @@ def o_recentre_any(case):
     c0 = solve3(dict(base, meas_pt=(xmx / 2, ymx / 2)))
     if xmx / 2 + k * dx == 0.0 and ymx / 2 + m * dy == 0.0:
         k += 1          # (0, 0) is the documented "no re-centring" request, not a point to centre on
-    c1 = solve3(dict(base, meas_pt=(xmx / 2 + k * dx, ymx / 2 + m * dy)))
+    # when the point is a whole number of metres on both axes it is handed over as integers (`meas_pt=(45, 21)`); on a lattice with
+    # dx = j/2, j odd, and nx = 2 mod 4 the centre is fractional, the point whole and the translation k dx fractional (k odd)
+    c1 = solve3(dict(base, meas_pt=(xmx / 2 + k * dx, ymx / 2 + m * dy), ints=par.get("ints")))
     tol = 1e-9 if base["precision"] == "double" else 3e-5
     fl = field_floor(base)
     for name, i in (("conc", 0), ("flx", 1)):
@@ -945,9 +969,10 @@ def run_C06(rng, tier, deep):
     for i in range(budget(tier, deep, 24, 200)):
         c = random_case(rng)
         im, jm, pt = ongrid_point(rng, c)
-        c["meas_pt"] = pt
+        if not c.get("ints"):       # whole-metre, integer-typed points stay as they are (usually off the grid)
+            c["meas_pt"] = pt
         cases.append(c)
-    correspond(cases, st)
+    correspond(cases + big_cases(rng, tier, deep), st)
     for _ in range(budget(tier, deep, 25, 300)):
         c = random_case(rng)
         ny, nx = c["q"].shape
@@ -975,6 +1000,17 @@ def run_C06(rng, tier, deep):
         c3 = random_case(rng)
         ny3, nx3 = c3["q"].shape
         c3["par"] = dict(k=int(rng.integers(-nx3, nx3 + 1)), m=int(rng.integers(-ny3, ny3 + 1)))
+        if rng.random() < 0.3:
+            # half-metre lattice: spacing j/2 (j odd), 2 mod 4 cells per axis, odd whole-cell offsets -> whole-metre points, integer-typed
+            nx3, ny3 = int(rng.choice([2, 6, 10])), int(rng.choice([2, 6, 10]))
+            jx = 2 * int(round(c3["domain"][0] / c3["q"].shape[1] - 0.5)) + 1
+            jy = 2 * int(round(c3["domain"][1] / c3["q"].shape[0] - 0.5)) + 1
+            c3["q"] = random_source(rng, ny3, nx3)
+            c3["domain"] = (nx3 * 0.5 * jx, ny3 * 0.5 * jy)
+            limit_growth(c3, bound=11.0)
+            if c3["domain"] == (nx3 * 0.5 * jx, ny3 * 0.5 * jy):
+                c3["par"] = dict(k=2 * int(rng.integers(-2, 3)) + 1, m=2 * int(rng.integers(-2, 3)) + 1, ints=str(rng.choice(["py", "np"])))
+                st["branches"]["recentre=whole-metre integer-typed point on a half-metre lattice"] = st["branches"].get("recentre=whole-metre integer-typed point on a half-metre lattice", 0) + 1
         run_oracle(st, o_recentre_any, c3)
     return finish(st, "random requests with on-grid towers; oracles: np.roll of the source / of the tower position (incl. wrap-around, shifts in [-n, 2n)), "
                   "point reflection against a unit-source dispersion run, re-centring value and full periodic roll (halo=0), measurement points that are exact periodic images of the origin, the same points in metres solved on a domain of another extent just before", deep, TOL)
@@ -1013,8 +1049,11 @@ def o_mirror(case):
         im2, jm2 = im, ny - 1 - jm
         flip = lambda f: f[:, ::-1, :]  # noqa: E731
     if base["footprint"]:
-        base["meas_pt"] = (im * dx, jm * dy)
-        m["meas_pt"] = (im2 * dx, jm2 * dy)
+        # the receptor on a node, or displaced by a fraction of a cell (0.5 = exactly half-way between two nodes, in floating point:
+        # the point where any rounding of the position to a node has to break a tie); the array flip j -> n-1-j maps x to (n-1) dx - x
+        fx, fy = par.get("frac", (0.0, 0.0))
+        base["meas_pt"] = ((im + fx) * dx, (jm + fy) * dy)
+        m["meas_pt"] = ((nx - 1 - im - fx) * dx, (jm + fy) * dy) if axis == "x" else ((im + fx) * dx, (ny - 1 - jm - fy) * dy)
     else:
         base["meas_pt"] = (0.0, 0.0)
         m["meas_pt"] = (0.0, 0.0)
@@ -1082,11 +1121,14 @@ def o_similarity(case):
 
 def run_C07(rng, tier, deep):
     st = new_stats()
-    correspond([random_case(rng) for _ in range(budget(tier, deep, 24, 200))], st)
+    correspond([random_case(rng) for _ in range(budget(tier, deep, 24, 200))] + big_cases(rng, tier, deep), st)
     for _ in range(budget(tier, deep, 20, 250)):
         c = random_case(rng)
         im, jm, pt = ongrid_point(rng, c)
-        c["par"] = dict(axis=str(rng.choice(["x", "y"])), im=im, jm=jm)
+        fr = [(0.0, 0.0), (0.5, 0.5), (0.5, 0.0), (0.0, 0.5), (float(rng.uniform(0, 1)), float(rng.uniform(0, 1)))][int(rng.integers(5))]
+        c["par"] = dict(axis=str(rng.choice(["x", "y"])), im=im, jm=jm, frac=fr)
+        st["branches"]["receptor offset (cells)=%s" % ("node" if fr == (0.0, 0.0) else "half-cell tie" if 0.5 in fr and set(fr) <= {0.0, 0.5} else "generic")] = \
+            st["branches"].get("receptor offset (cells)=%s" % ("node" if fr == (0.0, 0.0) else "half-cell tie" if 0.5 in fr and set(fr) <= {0.0, 0.5} else "generic"), 0) + 1
         run_oracle(st, o_mirror, c)
         c = random_case(rng)
         run_oracle(st, o_transpose, c)
@@ -1155,6 +1197,42 @@ def o_levels(case):
 
 
 @oracle
+def o_levels_big(case):
+    """a LARGE multi-level request (levels x retained modes well above 2^22 array elements; a full column of a fine vertical grid on a
+    128 x 128 spectrum): every slice against the same level taken from requests of at most `chunk` levels.  Sizes of this order are what
+    production runs use (default modes 512 x 512, a dozen output levels); the small grids of the other cases never reach them."""
+    rng = np.random.default_rng(case["seed"])
+    n, nz, chunk = case["n"], case["nz"], case["chunk"]
+    c = random_case(rng, small=True)
+    z = zgrid(rng, nz)
+    c.update(q=random_source(rng, n, n, "random"), z=z, profiles=power_profiles(rng, nz, z), modes=(n, n), halo=0.0, analytic=False,
+             precision="double", footprint=bool(case["footprint"]), domain=(float(n * 4.0), float(n * 4.0)), meas_pt=(float(4.0 * (n // 3)), float(4.0 * (n // 2))))
+    limit_growth(c)
+    base = base_of(c)
+    order = {"asc": list(range(nz)), "desc": list(range(nz - 1, -1, -1)), "shuf": [int(x) for x in rng.permutation(nz)]}[case["order"]]
+    order = order[: case.get("take", nz)]
+    grid, conc, flx = real_solve(dict(base, levels=order))
+    nlv = len(order)
+    if np.asarray(conc).shape != (nlv, n, n):
+        return fail("C10/big/shape", "a %d-level request on a %dx%d spectrum returns the wrong shape" % (nlv, n, n), None, [nlv, n, n], list(np.shape(conc)), 0)
+    Z = np.asarray(grid[2], dtype=float)
+    for k, l in enumerate(order):
+        if not np.all(Z[k] == z[l]):
+            return fail("C10/big/height-label", "slot %d of a %d-level request reports a height other than that of level %d" % (k, nlv, l), None, float(z[l]), float(Z[k, 0, 0]), 0)
+    fl = field_floor(base)
+    for a in range(0, nlv, chunk):
+        part = order[a:a + chunk]
+        pc, pf = solve3(dict(base, levels=part))[:2]
+        for kk, l in enumerate(part):
+            for name, got, exp, f0 in (("conc", conc[a + kk], pc[kk], fl[0]), ("flx", flx[a + kk], pf[kk], fl[1])):
+                e = relerr(np.asarray(got, dtype=float), np.asarray(exp, dtype=float), scale=f0)
+                if not e <= 1e-12:
+                    return fail("C10/big/slice/%s" % name, "slot %d (level %d) of a %d-level request on a %dx%d spectrum differs from the same level requested in a group of %d"
+                                % (a + kk, l, nlv, n, n, len(part)), None, "equal", e, 1e-12)
+    return None
+
+
+@oracle
 def o_levels_interface(case):
     """the same clause through the configuration-driven interface: `domain.output_levels` = any list of nodes (a permutation of ALL nodes, a
     descending list, repeats, a single level) - slice k of the single run is the single-level run for the k-th requested node, with its height"""
@@ -1199,7 +1277,7 @@ def run_C10(rng, tier, deep):
     for i in range(budget(tier, deep, 30, 250)):
         c = random_case(rng)
         cases.append(c)
-    correspond(cases, st)
+    correspond(cases + big_cases(rng, tier, deep), st)
     for i in range(budget(tier, deep, 40, 400)):
         c = random_case(rng, small=(i % 5 != 0))
         nz = len(c["z"])
@@ -1238,7 +1316,13 @@ def run_C10(rng, tier, deep):
         else:
             lv = [int(x) for x in rng.integers(0, nz + 1, size=3)]
         run_oracle(st, o_levels_interface, dict(nz=nz, levels=lv, footprint=bool(rng.random() < 0.5)))
-    return finish(st, "the same through run_bldfm_single with domain.output_levels (permutations of the full column, descending, partial, repeated); "
+    if deep or tier == "thorough":
+        # size thresholds: result arrays of 4-6 million complex entries (about 10 s, 0.5 GB)
+        for k in range(2):
+            nzb = int(rng.integers(257, 300)) if k == 0 else int(rng.integers(320, 360))
+            run_oracle(st, o_levels_big, dict(seed=int(rng.integers(1 << 30)), n=128, nz=nzb, chunk=int(rng.integers(40, 64)), footprint=bool(k),
+                                              order=["asc", "desc"][k], take=nzb if k == 0 else int(rng.integers(258, 300))))
+    return finish(st, "LARGE requests in the thorough tier / failing-input search (257..360 levels on a 128 x 128 spectrum, each slice vs the same level from groups of <= 64); the same through run_bldfm_single with domain.output_levels (permutations of the full column, descending, partial, repeated); "
                   "level selections ascending / descending / shuffled / repeated / with top node / scalar / full column, given as list, list of numpy integers, int64 / int32 / uint8 ndarray, Python int, numpy integer "
                   "scalar or 0-d array; domain / modes / measurement point as tuple, list or ndarray; numeric and analytic, both modes and precisions; oracle: each slice vs the single-level request and the full-column request, "
                   "height label exact", deep, TOL)
@@ -1262,6 +1346,10 @@ def o_shape_registration(case):
     if tuple(np.shape(conc)) != want or tuple(np.shape(flx)) != want:
         return fail("C11/shape", "returned field does not have the shape of the surface-flux field", None, list(want), list(np.shape(flx)), 0)
     X, Y = np.asarray(grid[0]), np.asarray(grid[1])
+    for nm, g in (("X", grid[0]), ("Y", grid[1]), ("Z", grid[2])):
+        if tuple(np.shape(g)) != want:
+            return fail("C11/grid-shape", "returned coordinate array %s does not have the shape of the returned fields (grid %dx%d, domain %s)" % (nm, nx, ny, (xmx, ymx)),
+                        None, list(want), list(np.shape(g)), 0)
     X2 = X.reshape(nlv, ny, nx)[0]
     Y2 = Y.reshape(nlv, ny, nx)[0]
     ex = np.arange(nx) * (xmx / nx)
@@ -1338,7 +1426,7 @@ def run_C11(rng, tier, deep):
         im, jm = int(rng.integers(0, nx)), int(rng.integers(0, ny))
         c["meas_pt"] = (im * c["domain"][0] / nx, jm * c["domain"][1] / ny)
         cases.append(c)
-    correspond(cases, st)
+    correspond(cases + big_cases(rng, tier, deep), st)
     # oracle: exhaustive small sweep in thorough, sampled in quick
     combos = [(nx, ny, mx, my, h, fp) for nx in range(2, 8) for ny in range(2, 8) for mx in (2, 4, 6, 512) for my in (2, 4, 8, 512)
               for h in ("zero", "none", "incomm") for fp in (False, True)]
@@ -1361,7 +1449,25 @@ def run_C11(rng, tier, deep):
             c2 = dict(c, analytic=False, profiles=power_profiles(rng, len(c["z"]), c["z"]), meas_pt=(0.0, 0.0), footprint=False, halo=0.0)
             limit_growth(c2)
             run_oracle(st, o_lowpass_clamp, c2)
-    return finish(st, "grid sizes 2..7 in both parities x mode counts below/at/above the padded size x halo 0/None/incommensurate x both modes; "
+    # sizes x ROUND extents: every cell count 2..64 against the extents people type (30, 50, 64, 100, 150, 300, 1000, ...): the spacing xmax / n
+    # is a rounded float, and anything that re-derives a count or a coordinate from it (arange, floor, ceil, int) sits on a tie for a few pairs
+    EXT = [1.0, 30.0, 50.0, 60.0, 64.0, 100.0, 120.0, 128.0, 150.0, 200.0, 256.0, 300.0, 400.0, 500.0, 512.0, 600.0, 800.0, 1000.0, 1024.0]
+    pairs = [(n, e) for n in range(2, 65) for e in EXT]
+    sel = range(len(pairs)) if (deep or tier == "thorough") else rng.permutation(len(pairs))[:160]
+    zz = zgrid(rng, 4)
+    pr = uniform_profiles(rng, 4)
+    for t in sel:
+        n, e = pairs[int(t)]
+        other = int(rng.integers(2, 6))
+        xfirst = bool(rng.random() < 0.5)
+        nx, ny = (n, other) if xfirst else (other, n)
+        dom = (e, float(rng.choice(EXT))) if xfirst else (float(rng.choice(EXT)), e)
+        c = dict(q=random_source(rng, ny, nx, "random"), z=zz, profiles=pr, domain=dom, levels=1, modes=(4, 2), meas_pt=(0.0, 0.0), bg=0.0,
+                 footprint=bool(rng.random() < 0.5), analytic=True, halo=[0.0, None, 0.37 * e][int(rng.integers(3))], precision="double")
+        if c["halo"] is None and max(nx, ny) > 24:
+            c["halo"] = 0.0
+        run_oracle(st, o_shape_registration, c)
+    return finish(st, "cell counts 2..64 x round extents (30, 50, 64, 100, 150, 300, 1000 ... m) on either axis; grid sizes 2..7 in both parities x mode counts below/at/above the padded size x halo 0/None/incommensurate x both modes; "
                   "oracle: shape, coordinates, registration against an independent closed-form synthesis at the same cells, low-pass and clamp by FFT of halo=0 outputs",
                   deep, TOL)
 
@@ -1480,6 +1586,19 @@ def o_convergence(par):
                         lamz = np.sqrt(-Tn / prof[4])
                         if np.sum(lamz.real[:-1] * dz) <= 18.0:
                             resolved[a, b] = True
+            if par.get("sample"):
+                # production-size spectra: the exact solution is integrated for a SAMPLE of the resolved components - those stored first and
+                # last in either axis order (where a blocked / chunked sweep has its remainders) plus random ones
+                keep = np.zeros((ny, nx), dtype=bool)
+                ii = np.flatnonzero(resolved.ravel())
+                jj = np.flatnonzero(resolved.T.ravel())
+                for flat, shp, tr in ((ii, (ny, nx), False), (jj, (nx, ny), True)):
+                    for t in list(flat[:6]) + list(flat[-6:]):
+                        a_, b_ = np.unravel_index(int(t), shp)
+                        keep[(b_, a_) if tr else (a_, b_)] = True
+                pick = rng.permutation(ii)[: int(par["sample"])]
+                keep.ravel()[pick] = True
+                resolved &= keep
             if not resolved.any():
                 return None
             exact = {}
@@ -1561,13 +1680,19 @@ def run_C01(rng, tier, deep):
         c["profiles"] = power_profiles(rng, len(c["z"]), c["z"])
         limit_growth(c)
         cases.append(c)
-    correspond(cases, st)
+    correspond(cases + big_cases(rng, tier, deep), st)
     for par in C01_CORPUS:
         run_oracle(st, o_convergence, dict(par))
     for _ in range(budget(tier, deep, 6, 60)):
         run_oracle(st, o_convergence, conv_par(rng))
     for k in range(budget(tier, deep, 1, 4)):
         run_oracle(st, o_convergence, conv_par_geom(rng, 32 if not deep and tier == "quick" else [64, 128][k % 2]))
-    return finish(st, "correspondence on height-dependent profiles; oracle: per-mode transfer functions fft2(out)/fft2(src) at n, 4n, 16n layers "
+    if deep or tier == "thorough":
+        # size thresholds: one production-size spectrum (9 000 - 17 000 components), exact solution for a sample of ~50 of them
+        par = conv_par(rng)
+        nxb, nyb = [(96, 96), (132, 128), (100, 90), (110, 84)][int(rng.integers(4))]
+        par.update(nx=nxb, ny=nyb, domain=[nxb * 40.0, nyb * 40.0 * float(rng.uniform(0.8, 1.2))], n0=8, sample=30, prelude=None, gamma=float(rng.choice([1.0, 1.5])))
+        run_oracle(st, o_convergence, par)
+    return finish(st, "correspondence on height-dependent profiles; thorough tier / failing-input search: one 9 000 - 17 000 component spectrum with the exact solution for a sample of components (first / last stored + random); oracle: per-mode transfer functions fft2(out)/fft2(src) at n, 4n, 16n layers "
                   "against an independent Riccati integration of the exact BVP (scipy DOP853, rtol 1e-11) for log/power wind x linear/power/MOST "
                   "diffusivity x anisotropy x wind angle x wind veering with height x uniform/stretched/geometric (mm-scale z0, up to 2048 layers in the deep search) grids, resolved components only", deep, TOL)
